@@ -64,7 +64,7 @@ def avp(code, data, flags=0x40, vendor=None):
 
 
 def origin(host, realm):
-    return [avp(264, host.encode()), avp(296, realm.encode())]
+    return [avp(264, host if isinstance(host, bytes) else host.encode()), avp(296, realm if isinstance(realm, bytes) else realm.encode())]
 
 
 def cer(host=PEER[0], realm=PEER[1], hbh=1, e2e=1, flags=0x80, apps=(), extra=()):
